@@ -11,7 +11,7 @@ EXPLANATION = (
     "under the lock -> releases that worker's exit lock -> joins, and never flags broken (R-EXIT-HANDSHAKE); that the "
     "respawn guard, evaluated as a decision table over (pending, running, workers), is true on every row with pending>0 "
     "and no worker left, its inner condition equals 'pool below max_workers', and the spawn is under the lock "
-    "(R-RESPAWN-GUARD, R-SPAWN-LOCKED); plus R-NULLED/R-MGR-SELF (known findings D3, D4: respawn after "
+    "(R-RESPAWN-GUARD, R-SPAWN-LOCKED); plus R-NULLED/R-MGR-SELF (known finding D4; D3 repaired in /repo: respawn after "
     "shutdown(wait=False) / executor GC). Not decided: the outcome of each individual race; the UserWarning."
 )
 
